@@ -152,6 +152,8 @@ def run(ctx):
     # the re-serialisation for the txid goes through the CompactSize writer and the tx layouts (shared with C05)
     from . import c05 as _c05
     _c05.check_writer(ctx, "C04.5")
+    _c05.check_reader(ctx, "C04.5")
+    _c05.check_witness(ctx, "C04.5")  # wtxid / raw bytes of a segwit transaction stand on the witness framing
     _c05.check_writers_layout(ctx, "C04.5")
     _c05.check_readers_layout(ctx, "C04.5")
     _c05.check_tx_deser(ctx, "C04.5")
